@@ -3,7 +3,7 @@ import VOPyVerif.Proofs.ConeIce
 # Helper lemmas for C12: vector (angle-free) form of the θ-cone membership, 3-D cone facts
 -/
 namespace VOPy.ConeFormulas
-open VOPy Real
+open VOPy VOPy.ConeOrd Real
 
 /-- wedge `{ch·|v| ≤ sh·u}` = circular cone `{ch·‖(u,v)‖ ≤ u}` for `ch, sh > 0`, `ch² + sh² = 1` -/
 theorem wedge_vec (ch sh u v : ℝ) (hc : 0 < ch) (hs : 0 < sh) (h1 : ch ^ 2 + sh ^ 2 = 1) :
